@@ -82,6 +82,7 @@ STRENGTHENED = {
  'C10-G': 'missed at first: the `bridge` pattern now leaves half of the earlier sessions unbridged, so that the session listed last is the first to expire',
  'C10-H': 'missed at first: added sources that stay silent for more than a day of event time (all timestamps far in the past)',
  'C16-H': 'missed at first: added the history step `reload` (the table is registered again under the same name between rows)',
+ 'C17-G': 'caught by the check as first written (kinds above).  Note: repair 7e333c2 of the engine came with a regression test (TestGlobalWindow_ExpressionArguments) that this change also fails, so the "suite passes" column reads NO at the current HEAD; it passed when the change was seeded',
  'C17-H': 'missed at first: single group column holding NULL next to the texts `\\\\N`, `\\\\\\\\N`, `NULL`',
  'C18-G': 'missed at first (event timestamps never went back): producers now send event-time rows in blocks whose late rows re-emit fired windows while on-time rows keep the watermark moving; reported as `lifecycle.hang`',
  'C20-H': 'missed at first: added MATCH_RECOGNIZE instances whose DEFINE cannot be evaluated on some rows (division by zero), paired with another pattern query over the same field names',
